@@ -217,6 +217,13 @@ def run(tier):
         metas.append({"scenario": {"scale": scale, "files": cnt, "workers": n, "layout": layout, "gomaxprocs": gmp, "report_in_new_dir": newdir},
                       "stderr_tail": (p.stderr or "")[-600:], "rows": len(rows)})
         run.nontriv(json.dumps(metas[-1]["scenario"], sort_keys=True))
+    # ---- beyond the property: unsupported sample size -> terminates without a report
+    rootu = os.path.join(work, "in_unsupported")
+    make_files(rng, rootu, 3, 1000, "flat")
+    repu = os.path.join(work, "report_unsupported.csv")
+    pu = vlib.run_bin(tool, ["-i", rootu, "-o", repu, "-n", "2"], timeout=60, cwd=work)
+    groups.append([{"ev": "unsupported", "code": pu.returncode, "hang": bool(getattr(pu, "timed_out", False)), "report_exists": os.path.exists(repu)}])
+    metas.append({"scenario": {"scale": "unsupported (8000-bit files)"}, "stderr_tail": (pu.stderr or "")[-300:], "rows": 0})
     # ---- 10^8-bit scale: worker_1E8 driven directly on smaller files
     sc = vlib.scratch("rdd1e8")
     for f in os.listdir(os.path.join(vlib.REPO, "tools", "rddetector")):
